@@ -40,13 +40,28 @@ IMPL = {
     "tx_ser": lambda t: txgen.api_ser(txgen.norm_tx(t)),
     "txid": lambda b: _bits().tx.txid(b),
     "txin_default": lambda o, s: _bits().tx.txin(o, s),          # default sequence argument
+    # several buffers deserialised one after the other in ONE process (state carried between calls shows up here)
+    "deser_seq": lambda bufs: _deser_seq(bufs),
     # `bits tx --decode` through the command line (harness/cli.py): the ids it prints
     "cli_tx_ids": lambda b, fmt, style: txgen.cli_decode(b, fmt, style)[:2],
 }
 
 
+def _deser_seq(bufs):
+    out = []
+    for b in bufs:
+        try:
+            d, rest = _bits().tx.tx_deser(b, include_raw=True)
+            out.append(["ok", [txgen.canon_parsed_dict(d), rest]])
+        except Exception:
+            out.append(["err", None])
+    return out
+
+
 def model_call(c):
     """cli_tx_ids is compared with the EXISTING model op tx_deser (its txid / wtxid components)"""
+    if c["op"] == "deser_seq":
+        return [("c04_tx_deser", [b]) for b in c["args"][0]]
     if c["op"] == "cli_tx_ids":
         return "c04_tx_deser", [c["args"][0]]
     return "c04_" + c["op"], c["args"]
@@ -115,6 +130,31 @@ def gen_cases(rng, tier):
         tail = b"".join(psers[k + 1:])
         out.append(case("block-of-tx-structural-fields", "tx_deser", psers[k] + tail, t=enc(pick[k]), nrest=len(tail)))
     out.append(case("block-deser-ids-structural-fields", "block_ids", struct_header(rng) + txgen.ref_cs(len(psers)) + b"".join(psers)))
+    # coinbase-shaped transactions (null outpoint 00..00:ffffffff), legacy and segwit, at the FIRST position of a block
+    # and elsewhere; a non-coinbase first transaction; a block of one transaction (alone / with trailing data: grammar)
+    fill = [txgen.ref_ser(txgen.gen_tx(rng, n_in=rng.randrange(1, 3), n_out=1, segwit=rng.random() < 0.5)) for _ in range(5)]
+    blocks = []
+    for sw in (True, False):
+        k = "segwit" if sw else "legacy"
+        cb = txgen.ref_ser(txgen.coinbase_like(rng, sw))
+        blocks += [("coinbase-%s-first" % k, [cb] + fill[:3]), ("coinbase-%s-only" % k, [cb]),
+                   ("coinbase-%s-not-first" % k, fill[:2] + [cb] + fill[2:4]), ("coinbase-%s-last" % k, fill[:2] + [cb]),
+                   ("coinbase-%s-twice" % k, [cb, cb] + fill[:1]),
+                   ("coinbase-%s-2-inputs-first" % k, [txgen.ref_ser(txgen.coinbase_like(rng, sw, n_in=2))] + fill[:2]),
+                   ("null-txid-vout-0-%s-first" % k, [txgen.ref_ser(txgen.coinbase_like(rng, sw, vout=0))] + fill[:2]),
+                   ("nonnull-txid-vout-ffffffff-%s-first" % k, [txgen.ref_ser(txgen.coinbase_like(rng, sw, null_txid=False))] + fill[:2])]
+    for name, sers2 in blocks:
+        out.append(case("block-deser-ids-" + name, "block_ids", rng.randbytes(80) + txgen.ref_cs(len(sers2)) + b"".join(sers2)))
+    # FINGERPRINT-COLLIDING PAIRS deserialised one after the other in one process: different transactions of equal
+    # length with equal crc32 / adler32 / byte sum / word xor / head+tail (a cache keyed by a cheap fingerprint of the
+    # raw bytes gives the second the first one's ids) - alone, with trailing data, and inside one block
+    for name, kind, ta, tb in txgen.collision_pairs():
+        sa, sb = txgen.ref_ser(ta), txgen.ref_ser(tb)
+        tr = rng.choice([b"\x00", sa[-4:], sb])
+        out.append(case("collide-%s-%s-pair" % (name, kind), "deser_seq", [sa, sb]))
+        out.append(case("collide-%s-%s-pair-trailing" % (name, kind), "deser_seq", [sb + tr, sa + tr, sb]))
+        out.append(case("collide-%s-%s-in-block" % (name, kind), "block_ids",
+                        rng.randbytes(80) + txgen.ref_cs(3) + sa + fill[0] + sb))
     # a block whose transaction count needs a 3-byte CompactSize (253+): offsets must follow the count's real width
     many = [txgen.ref_ser(txgen.gen_tx(rng, n_in=1, n_out=1, segwit=(i % 3 == 0))) for i in range(253 if not T else 300)]
     out.append(case("block-deser-ids-253", "block_ids", rng.randbytes(80) + txgen.ref_cs(len(many)) + b"".join(many), timeout=120))
@@ -173,6 +213,13 @@ def shrink(c):
                     c2["args"] = [txgen.ref_ser(t) + tr2] + list(c["args"][1:])
                     c2["nrest"] = len(tr2)
                     yield c2
+    elif c["op"] == "deser_seq":
+        bufs = c["args"][0]
+        if len(bufs) > 2:
+            for k in range(len(bufs)):
+                c2 = dict(c)
+                c2["args"] = [bufs[:k] + bufs[k + 1:]]
+                yield c2
     elif c["op"] in ("tx_deser", "txid"):
         for b in shrink_bytes(c["args"][0]):
             c2 = dict(c)
@@ -229,6 +276,24 @@ def _oracle_block(c):
 def prop_oracle(c):
     if c["op"] == "block_ids":
         return _oracle_block(c)
+    if c["op"] == "deser_seq":
+        got = _deser_seq(c["args"][0])
+        for k, (b, g) in enumerate(zip(c["args"][0], got)):
+            p = txgen.ref_parse(b)
+            if p is None:
+                continue
+            t, used = p
+            t = txgen.norm_tx(t)
+            if g[0] != "ok":
+                return "call %d of the sequence: a well-formed transaction is refused" % (k + 1)
+            (txid_, wtxid_, raw_, _), rest = g[1]
+            if txid_ != txgen.hash256(txgen.ref_ser(t, with_witness=False)):
+                return ("call %d of the sequence (after %d other transaction(s) were deserialised in this process): txid %s is "
+                        "not HASH256 of the serialisation without marker/flag/witness (%s)" % (
+                            k + 1, k, txid_.hex(), txgen.hash256(txgen.ref_ser(t, with_witness=False)).hex()))
+            if wtxid_ != txgen.hash256(b[:used]) or raw_ != b[:used] or rest != b[used:]:
+                return "call %d of the sequence: wtxid / raw / leftover are not those of the transaction" % (k + 1)
+        return None
     if c["op"] == "txid":
         import bits.tx as m
         return None if m.txid(c["args"][0]) == txgen.hash256(c["args"][0]) else "txid(x) is not SHA256(SHA256(x))"
